@@ -3,6 +3,8 @@
 From Coq Require Import List Bool Sorting.Permutation Floats.
 From Pcfg Require Import ProbAlg F64 Next NextSpec NextProofs NextFacts RestoreProofs RestoreFacts RestoreRefuted.
 From PcfgGen Require Import Consts_gen.
+From Pcfg Require Import KernelRt KernelGenProofs.
+From PcfgGen Require Import Kernel_gen.
 
 (* Side condition on the constant regenerated from the source on every run:
    the theorems below are about the non-strict comparison in is_parent_around;
@@ -64,6 +66,42 @@ Proof. exact restore_strict_refuted. Qed.
 
 Theorem C08_hypotheses_satisfiable : wf demo_rs.
 Proof. exact demo_wf. Qed.
+
+(* ---- second tie to the source: gen/Kernel_gen.v is the translation of the Python
+   text of is_parent_around and _recursive_restore_prob_order (harness/translate_kernel.py,
+   redone on every run).  The first theorem no longer holds when the source compares
+   with `<` again (it is stated for parent_around_gen false). *)
+Theorem C08_source_parent_around_is_model :
+  forall (A : palg) (up : P A) (un : var * nat) (rs : ruleset A) (it : item A) (m : P A),
+  inrange rs (ipt it) -> py_is_parent_around up un rs it m = parent_around_gen false rs it m.
+Proof. exact (fun A up un rs it m => kernel_parent_around_eq up un rs it m). Qed.
+
+(* mn is min_prob, which the model does not have: PcfgQueue passes 0.0 *)
+Theorem C08_source_restore_is_model :
+  forall (A : palg) (up : P A) (un : var * nat) (rs : ruleset A) (m mn : P A) (fuel : nat) (it : item A) (left : nat),
+  inrange rs (ipt it) -> plt (iprob it) mn = false ->
+  (forall t, inrange rs t -> plt (find_prob rs t (ibase it)) mn = false) ->
+  py_restore up un fuel rs it m mn left = restore_gen false fuel rs it m left.
+Proof. exact (fun A up un rs m mn fuel it left => kernel_restore_eq up un rs m mn fuel it left). Qed.
+
+Theorem C08_translated_restore_is_model :
+  forall (A : palg) (up : P A) (un : var * nat) (rs : ruleset A), wf rs -> forall m mn : P A,
+  (forall p, okb p = true -> ple mn p = true) ->
+  kernel_restored up un rs m mn = restored_gen false rs m.
+Proof. exact (fun A up un rs H m mn => kernel_restored_eq up un rs H m mn). Qed.
+
+Theorem C08_restore_frontier_translated :
+  forall (A : palg) (up : P A) (un : var * nat) (rs : ruleset A), wf rs -> forall m mn : P A,
+  okb m = true -> (forall p, okb p = true -> ple mn p = true) ->
+  Permutation (kernel_restored up un rs m mn) (filter (frontierb rs m) (all_preterminals rs)).
+Proof. exact (fun A up un rs H m mn => kernel_restore_frontier up un rs H m mn). Qed.
+
+Theorem C08_translated_restore_binary64 :
+  forall (up : P F64) (un : var * nat) (rs : ruleset F64) (m : P F64), wf rs ->
+  kernel_restored up un rs m 0%float = restored_gen false rs m.
+Proof. exact kernel_restored_eq_F64. Qed.
+
+Print Assumptions C08_restore_frontier_translated.
 
 Print Assumptions C08_restore_frontier.
 Print Assumptions C08_resume_exact.
